@@ -6,7 +6,7 @@ sys.path.insert(0, HERE)
 
 TEXT = {
  'C01': ('differential co-simulation of the real py4hw cycle simulator against an IEEE 1364 event simulator (vsim) executing the emitted text, under seeded instantiation orders and seeded IEEE-legal event orders (race probe every 8th cycle); outputs compared from power-up on every cycle; mismatches blamed on the first diverging block and attributed to uninitialised storage when they vanish under zero power-up',
-         'samples designs/inputs/schedules; trusted base: vsim (written for this task, 385 self-tests incl. IEEE worked examples); single clock domain; open findings KF-C01-1..5 excluded by narrow predicates and replayed'),
+         'samples designs/inputs/schedules; trusted base: vsim (written for this task, 388 self-tests incl. IEEE worked examples); single clock domain; open findings KF-C01-2..5 (memory bodies) excluded by narrow predicates and replayed'),
  'C02': ('co-simulation of behavioural blocks (8 library blocks that reach the transpiler + seeded random clock()/propagate() programs with interval-checked value ranges + one-unsupported-construct programs) against vsim; outputs and integer state variables compared after every edge; refusal clause: exception, or text that elaborates and agrees',
          'samples programs and input histories; trusted base: vsim; programs kept inside the stated value domain by construction; open findings KF-C02-1/2'),
  'C03': ('every text returned by seeded generation histories (whole hierarchy, child module via different ancestors, createdStructures, interleaved/crashed generations) over netlists with seeded naming faults is parsed and elaborated by vsim with exactly the rules the statement lists',
